@@ -2,6 +2,6 @@
 EXTENDS VerifyTrust, Json, Sequences
 SetToSeq(S) == CHOOSE s \in [1..Cardinality(S) -> S] : \A i, j \in 1..Cardinality(S) : i < j => s[i] # s[j]
 Export == pc = "done" =>
-  PrintT("BEH " \o ToJson([leafBy |-> c.leafBy, leafW |-> c.leafW, intW |-> c.intW, intCA |-> c.intCA, bundled |-> c.bundled, anchors |-> SetToSeq(c.anchors),
+  PrintT("BEH " \o ToJson([leafBy |-> c.leafBy, leafW |-> c.leafW, intW |-> c.intW, intCA |-> c.intCA, bundled |-> c.bundled, prior |-> c.prior, tsaUsage |-> c.tsaUsage, anchors |-> SetToSeq(c.anchors),
                            ts |-> c.ts, tsaBy |-> c.tsaBy, tsaW |-> c.tsaW, gen |-> c.gen, now |-> c.now, noChain |-> c.noChain, verdict |-> verdict]))
 =============================================================================
